@@ -16,4 +16,33 @@ PROPS = {
                         "model entry points 1-4 of Run.v are the functions the C19 theorems are about"],
         "trusted_base": ["modelled, not verified: rfc1035label/label.go (tied by the correspondence on the explored inputs)"],
     },
+    "C01": {
+        "coq_files": BASE + ["V4/", "Props/C01.v"],
+        "rule": "packets of the C01 domain: every option length in {0,1,2,253..257,508..512,763..767,1019..1022} x codes {1,53,81,82,83,254}, "
+                "chaddr lengths 0..16 (17,20,255,256 outside the domain for the model tie), names at 0/1/62/63 (64.. outside), IP forms nil/4/mapped "
+                "(real IPv6: panic class must agree), random option sets of 0..40 codes with values up to 4096 octets; each packet: ToBytes vs enc4 "
+                "(exact bytes) and FromBytes(ToBytes) vs dec4(enc4); direct oracle FromBytes(ToBytes(p)) vs p on the real code + wire validator; "
+                "non-trivial = distinct case with an ok result",
+        "assumptions": ["nil and empty option values are identified (a zero-length option decodes to a nil value)"],
+        "trusted_base": ["modelled, not verified: dhcpv4.(*DHCPv4).ToBytes, Options.Marshal, sortedKeys, FromBytes, fromBytesCheckEnd"],
+    },
+    "C04": {
+        "coq_files": BASE + ["V4/", "Props/C04.v"],
+        "model_is_spec": True,
+        "rule": "exhaustive option areas over {0,1,2,3,53,82,255} up to length 5 (quick) / 6 (thorough) behind a valid header; every truncation "
+                "point of valid packets; corruption of cookie, hlen and every option length octet (+-1, 0, 255); NUL/hlen variants; random and mutated "
+                "packets up to 1500 octets; non-canonical areas; each input: FromBytes verdict + all public fields vs dec4, and vs an independent Go RFC "
+                "reference decoder; non-trivial = distinct accepted input",
+        "assumptions": ["dec4 is proved equal to the declarative layout relation, so a model/Go disagreement is a property-failing input"],
+        "trusted_base": ["modelled, not verified: dhcpv4.FromBytes, Options.fromBytesCheckEnd"],
+    },
+    "C07": {
+        "coq_files": BASE + ["V4/", "Props/C07.v"],
+        "rule": "6-option sets including 82, 255 and 0 inserted in all 720 permutations (every 36th encoded 20 times in fresh maps, with "
+                "Update/Del detours), larger random sets in 4 shuffles; every encoding checked by a wire validator sharing no code with the library "
+                "(>=300, one End then padding, ascending codes, 82 last, instances <= 255, independent decoder recovers the values) and compared with enc4; "
+                "non-trivial = distinct packet",
+        "assumptions": ["Go's map iteration order is modelled as an arbitrary order of the association list; the theorem quantifies over all of them"],
+        "trusted_base": ["modelled, not verified: dhcpv4.(*DHCPv4).ToBytes, Options.Marshal, sortedKeys"],
+    },
 }
